@@ -256,7 +256,7 @@ class Stats:
         for k, v in other.labels.items():
             self.labels[k] = self.labels.get(k, 0) + v
         for k, v in other.extra.items():
-            self.extra[k] = self.extra.get(k, 0) + v
+            self.extra[k] = self.extra.get(k, "" if isinstance(v, str) else 0) + v
         for k, v in other.maxima.items():
             self.maximum(k, v)
         for s in other.samples:
